@@ -153,8 +153,10 @@ func NewRouterInfo(
 
 	routerInfo.signature = signature
 
+	// The identity is rendered before the logger is entered: the logger formats its
+	// fields while holding its lock, and rendering an identity logs as well.
 	log.WithFields(logger.Fields{
-		"router_identity": routerIdentity,
+		"router_identity": routerIdentity.String(),
 		"published":       publishedDate,
 		"address_count":   len(addresses),
 		"options":         options,
@@ -694,8 +696,10 @@ func ReadRouterInfo(bytes []byte) (info RouterInfo, remainder []byte, err error)
 		return
 	}
 
+	// The identity is rendered before the logger is entered: the logger formats its
+	// fields while holding its lock, and rendering an identity logs as well.
 	log.WithFields(logger.Fields{
-		"router_identity":  info.router_identity,
+		"router_identity":  info.router_identity.String(),
 		"published":        info.published,
 		"address_count":    len(info.addresses),
 		"remainder_length": len(remainder),
